@@ -151,14 +151,11 @@ def work(item):
                 out['l2phi'] = norms.l2(eta[:3], L).l2NormSquared(g)
                 # one replica = ranks whose coordinates along the process directions the layout does not use are 0
                 hd = sw._managers[sw._handlers[layout]]
-                used = set(c.cid for c in hd.communicators)
-                topo = comm.Create_cart(list(nprocs), periods=[False, False])
-                coords = topo.Get_coords(comm.Get_rank())
+                big = sw._managers[sw._largestLayoutManager]
                 rep = 0
-                for ax in range(2):
-                    sub = topo.Sub([ax == j for j in range(2)])
-                    if sub.cid[:-1] not in set(c[:-1] for c in used) and not any(sub == c for c in hd.communicators):
-                        rep += coords[ax]
+                for ax, c in enumerate(big.communicators):
+                    if not any(c == x for x in hd.communicators):
+                        rep += big.mpiCoords[ax]
                 out['replica'] = rep
             return out
         return simmpi.World(nranks).run(rankfn)
@@ -383,13 +380,11 @@ def float_replay(allm, item, st):
                 dist.fill_grid(ph, Pd)
                 out['l2phi'] = m['norms'].l2(eta[:3], sw.getLayout(layout)).l2NormSquared(ph)
                 hd = sw._managers[sw._handlers[layout]]
-                topo = comm.Create_cart(list(nprocs), periods=[False, False])
-                coords = topo.Get_coords(comm.Get_rank())
+                big = sw._managers[sw._largestLayoutManager]
                 rep = 0
-                for ax in range(2):
-                    sub = topo.Sub([ax == j for j in range(2)])
-                    if not any(sub == c for c in hd.communicators):
-                        rep += coords[ax]
+                for ax, c in enumerate(big.communicators):
+                    if not any(c == x for x in hd.communicators):
+                        rep += big.mpiCoords[ax]
                 out['replica'] = rep
             return out
         outs = simmpi.World(nranks).run(rankfn)
